@@ -170,9 +170,21 @@ func TestC05CrashImages(t *testing.T) {
 					a = s.M.Devices[rapid.SampledFrom(live).Draw(t, "id")]
 				default:
 					a = s.M.Devices[rapid.SampledFrom(live).Draw(t, "id")]
-					a.Debt++
+					if rapid.IntRange(0, 2).Draw(t, "conflictBySignatureOnly") != 0 {
+						a.Debt++
+					}
 				}
+				cur := a.Sig
 				a.Sig = ref.Sign(gca, a.SigningBytes())
+				if kind == "conflict" && a.Sig == cur {
+					// same content: the conflict is a second valid signature (another nonce)
+					if sig, ok := ref.SignWithNonce(gca, a.SigningBytes(), []byte{byte(next), 7, 7, 7}); ok && sig != cur {
+						a.Sig = sig
+					} else {
+						a.Debt++
+						a.Sig = ref.Sign(gca, a.SigningBytes())
+					}
+				}
 				begin("authorize " + kind)
 				s.authorize(a, kind)
 				end()
